@@ -33,6 +33,9 @@ pub struct ProbeResult {
     pub canon: Result<String, ()>,
     pub speech: Result<String, ()>,
     pub braille: Result<String, ()>,
+    /// what the ten place markers of the new expression hold (Read0..Read9; a fresh session has none set): the
+    /// part of the navigation state that is tied to an expression and must not survive a new one
+    pub markers: Vec<Result<String, ()>>,
 }
 
 /// the probe: a caller that (re)starts properly after an error
@@ -51,7 +54,13 @@ pub fn run_probe(expr: &str) -> Result<ProbeResult, PanicInfo> {
     let speech = flat(api::speech())?;
     let braille = flat(api::braille(""))?;
     let m = canon_raw.clone().unwrap_or_default();
-    Ok(ProbeResult { canon: canon_raw.map(|s| normalize_ids(&s, &m)), speech: speech.map(|s| normalize_ids(&s, &m)), braille })
+    let mut markers = vec![];
+    if canon_raw.is_ok() {
+        for k in [1, 7] {
+            markers.push(flat(api::nav_cmd(&format!("Read{}", k)))?.map(|s| normalize_ids(&s, &m)));
+        }
+    }
+    Ok(ProbeResult { markers, canon: canon_raw.map(|s| normalize_ids(&s, &m)), speech: speech.map(|s| normalize_ids(&s, &m)), braille })
 }
 
 /// The reference model: a fresh session in which only the *accepted state-changing calls* (successful
@@ -164,6 +173,8 @@ impl C08 {
                                 "canonical-mathml"
                             } else if here.speech != reference.speech {
                                 "speech"
+                            } else if here.markers != reference.markers {
+                                "place-markers"
                             } else {
                                 "braille"
                             };
